@@ -20,7 +20,7 @@ CLAIMED = {
             "evaluated in the callee frame in declaration order (bindParams_default). Tied to the code by generated programs (closures, shadowing to 4 "
             "levels, recursion, positional/named/default/rest/spread/pipeline/method calls) run three ways: implementation, a reference interpreter "
             "written from the language rules, and the Lean evaluator.",
-            "Pipeline / method-call desugaring is in the parser and evaluator models and covered by correspondence, not by a separate theorem."),
+            "Pipeline / method-call desugaring and spread arguments are theorems now (C03Sugar); a pipeline embedded in an arbitrary surrounding program is covered by correspondence."),
     "C04": ("6/C04", "Theorems (Lean 4, evaluator model): for/while never return a break or continue value (loop_absorbs_break_continue), a block stops at the "
             "first control value and returns it unchanged (block_propagates_signal), a call unwraps return and turns a stray break/continue into a "
             "runtime error (call_unwraps_return, call_break_is_error), if evaluates exactly the first TRUE branch (if_first_true, if_all_false), while "
@@ -44,9 +44,9 @@ CLAIMED = {
             "NULL, patterns without '/', and arbitrarily nested lists of these parse back to their literal AST (roundtrip_data). Tied to the code by "
             "generated data values to depth 3 (adversarial strings, all float binades by bit pattern): str(v) evaluates to an equal value of the same "
             "type that renders to the same text; model render (incl. shortest-repr decRepr) = implementation text.",
-            "PARTIAL: decimals round-trip under two stated hypotheses about decRepr/parseDecimal (roundtrip_dec_partial); sets, maps and the evaluation "
-            "step of the round trip are covered by the oracle/correspondence only. Known findings: equal ints/decimals as set elements, -0.0, patterns "
-            "containing '//', NULL as a map key."),
+            "Decimals are theorems now (C08Dec): every finite binary64 value prints as digits.digits and reads back as the same value. PARTIAL: evaluation of "
+            "SETS and MAPS that contain decimals is covered by the oracle/correspondence only (1 == 1.0 makes the canonical-form argument different). "
+            "Known findings: equal ints/decimals as set elements, -0.0, patterns containing '//', NULL as a map key."),
     "C10": ("6/C10", "Theorems (Lean 4, evaluator + session model): modstack_preserved - every evaluator function leaves the module load stack as it found it on "
             "every exit (value, runtime error, syntax failure, host failure); hence after ANY session of interpret calls the stack is empty again "
             "(modstack_empty_between_calls) and a failed require can never make a later one report a circular dependency "
@@ -64,8 +64,7 @@ CLAIMED = {
             "module graphs (2..5 modules, public/private definitions, load messages, mutable state, cyclic and acyclic) x importer programs with every "
             "import form: importer symbol tables before/after, module object members, load counts, shared state, importer isolation, cycles; and the "
             "model session on the same histories.",
-            "The 'binds exactly these names' part is covered by the oracle and the model correspondence (symbol tables are compared), not by a "
-            "separate theorem. At-most-once is per module identifier spelling."),
+            "At-most-once is per module identifier spelling (`require Math` and `require math` load the bundled module twice)."),
     "C12": ("6/C12", "Theorems (Lean 4, evaluator model): the storage order of a set / map cell (CPython's hash order) is unobservable - for two states that "
             "differ only by a permutation of one cell's content (elements pairwise of one ordered kind and distinct): sorted enumeration "
             "(sortedR_perm, sortedEntriesR_perm), reification, equality, order, rendering (reify_perm, rveq_perm, rvlt_perm, rrender_perm), membership, "
@@ -74,7 +73,7 @@ CLAIMED = {
             "enumeration path and library function, each run in fresh processes under 8 (thorough 32) PYTHONHASHSEED values, and compared with the "
             "hash-free model.",
             "CPython's hash randomisation is abstracted to 'any permutation'. Known finding C12:date-number-mix (theorem totalOn_necessary): sets mixing "
-            "dates with numbers enumerate seed-dependently. Whole-program simulation under permutation is not proved, only the enumeration primitives."),
+            "dates with numbers enumerate seed-dependently. Whole-program simulation under permutation is proved for call-free programs (C12Sim); with calls only the enumeration primitives."),
     "C16": ("6/C16", "Theorems (Lean 4, evaluator model): every modelled built-in other than append/insert_at/delete_at/remove/put leaves every pre-existing heap "
             "cell unchanged on every outcome (callPure_nonmutating); each mutator changes exactly its target cell, to the textbook result "
             "(mutator_frame, append_list, insert_at_list, delete_at_list, put_map, remove_*); containers returned by non-mutating built-ins are fresh "
@@ -82,7 +81,7 @@ CLAIMED = {
             "mutation (alias_visibility); element/member assignment changes only the addressed cell; literals, slices and comprehensions only "
             "allocate. Tied to the code by snapshotting (structure + identities) all arguments of every function of the base environment and bundled "
             "modules over a 20-value pool, and by random alias programs checked against a reference heap and the model.",
-            "Library functions written in the language (permutations, unique, ...) are covered by the snapshot oracle, not by theorems."),
+            "Library functions written in the language: those proved in C19Src / C18Src carry `Ext` (no argument changed) or `ExtBut` (exactly the documented argument changed) in their statements; the others (permutations, unique, ...) are covered by the snapshot oracle."),
     "C18": ("6/C18", "Theorems (Lean 4, all strings): contains <-> find >= 0 <-> infix, `in` = contains, starts_with/ends_with = prefix/suffix; join = intercalate, "
             "join(split(s, sep), sep) = s for every s and sep, split(join(xs, sep), sep) = xs exactly under the stated JoinClean condition (iff, with a "
             "counterexample otherwise), split through escape_pattern is the literal split; replace (the recursive string.ckl algorithm, fuel proved "
@@ -136,7 +135,7 @@ CLAIMED = {
             "model are functions of token types/values (positions only flow into error positions), meaning is layout independent in the model; "
             "tied to the code by re-rendering generated and test-suite programs under random layouts/spellings and comparing tokens, ASTs, "
             "results, output and error values on the implementation and ASTs with the model front end.",
-            "Redundant parentheses and trailing semicolons are covered by the correspondence/oracle only (no theorem yet)."),
+            "Redundant parentheses and trailing semicolons are theorems now (C14Parens) for the contexts listed there; a single anywhere-in-any-context statement is not proved."),
     "C20": ("6/C20", "Theorems (Lean 4): for every input text and every token the scanner model emits, the token's line is 1 + the number of line "
             "breaks before the token's start offset and its file name is the given one (token_line_correct, token_start); a failing scan "
             "reports the line of the offending character / token start (error_line_correct). Node, error and stack-trace positions are copied "
@@ -178,7 +177,13 @@ PENDING = {}
 
 # theorem families added after the first complete pass (DESIGN.md section 0)
 ADDENDA = {
-    "C19": " Theorems about the library SOURCE by the translator route (C19Src): harness/extract/libsrc.py re-parses src/ckl/modules/*.ckl with the real parser on every run and emits the functions as Lean terms (Gen/LibSrc.lean, cross-checked against the driver's decoder by #guards); abs_src_int / sign_src_int (the source of abs / sign computes Int.natAbs / Int.sign for all ints, all states satisfying LibEnv, all fuel above an explicit bound, changing no old frame, cell or output), the NULL and non-numeric branches, is_int_src / is_decimal_src / is_list_src / is_numeric_src, rest_src. An edit of the source (`n < 0` -> `n <= 0`) breaks the proof at check time.",
+    "C18": " Theorems about the string library SOURCE by the translator route (C18Src, 21 audited): reverse_src (= List.reverse, involutive), join_src (= intercalate; join_split_src: join(split(s, sep), sep) = s for the source), q_src, replace_src (the recursive source = left-to-right non-overlapping substitution behind `start`, explicit fuel 30 * (length - start) + 30), replace_src_empty_pattern, esc_src, each with `Ext`; mutants of string.ckl break the proofs at check time, a comment-only change does not.",
+    "C07": " Evaluator level (C07EvalAudit, theorems of the C06Eval family): the natives less / less_equals / greater / greater_equals / compare are vlt and its derived relations on reified values (native_less_eq, compare_consistent, less_trichotomy); nativeSorted without cmp / key returns a fresh cell holding the stable sorted permutation (sorted_list_spec, sorted_list_sorted_stable, sorted_set_spec, sorted_list_by_length); for loops, comprehensions and spread over a set or the keys of a map visit the elements in strictly ascending vlt order (for_set_order, for_map_keys_order, compr_set_order, spread_item_set_order).",
+    "C06": " Evaluator level (C06Eval, 135 audited): the BRIDGE between the heap values programs run on and the tree values of the theorems - under the heap well-formedness HeapOK, rveq / rvlt / rrender / memR / mapGet / sortedR / setAdd / mapPut / mapDel agree with veq / vlt / render / membership / lookup / mkSet / dedupKeepFirst / assocPut; hence the native `equals` is an equivalence that never relates different kinds (equals_refl/symm/trans, equals_cross_kind, numeric equality iff equal rationals), `in`, `m[k]`, remove, contains respect it (memR_congr, mapGet_congr, in_set_congr, index_congr), set literals / set() / append never hold two equal elements (addSet_spec, set_literal_spec); HeapOK is preserved by allocation of well-formed cells (heapOK_alloc), with witnesses showing each side condition necessary.",
+    "C05": " From source text (C05EndToEnd): uncaught_error_reaches_interpret_src; error_literal_reaches_interpret - the text `error <v>` for every data value v ends the call with a runtime error whose value is exactly v; finally_exactly_once_src for every text and every session.",
+    "C01": " End to end (C01EndToEnd): parseScript_total / interpret_total - for EVERY source text the front end accepts or rejects with one syntax error that has a non-empty message, a line >= 1 and the given file name, and interpret ends in exactly one of value / runtime error carrying a value / syntax error / the model's own abstentions, never a host failure.",
+    "C19": " Theorems about the library SOURCE by the translator route (C19Src): harness/extract/libsrc.py re-parses src/ckl/modules/*.ckl with the real parser on every run and emits the functions as Lean terms (Gen/LibSrc.lean, cross-checked against the driver's decoder by #guards); abs_src_int / sign_src_int (the source of abs / sign computes Int.natAbs / Int.sign for all ints, all states satisfying LibEnv, all fuel above an explicit bound, changing no old frame, cell or output), the NULL and non-numeric branches, is_int_src / is_decimal_src / is_list_src / is_numeric_src, rest_src. An edit of the source (`n < 0` -> `n <= 0`) breaks the proof at check time."
+           " Continuation (51 audited in C19Src): first, last, is_even, is_odd, is_zero, is_negative, is_positive, non_empty, const, reverse_list (= List.reverse in a fresh cell, argument unchanged), reduce / prod (= foldl), append_all (changes exactly its first argument), gcd (= Int.gcd, explicit fuel 30 * (|b| + 1) + 1), load_defs_establishes_libEnv (the state obtained by loading the generated definitions satisfies the hypothesis of all these theorems).",
     "C12": " Whole-program simulation for call-free programs (C12Sim): eval_perm_irrelevant_partial - for states that differ by permutations of set / map cell contents (atomic, same-kind keys) every program without call / method call / require / element assignment outside lambda bodies (31 of 35 node kinds) gives the same outcome, value, error, message, position, trace and printed output, and related final states; session, output and rendering corollaries. The unrestricted statement is false in model and code alike (growth of a cell by an incomparable key - the recorded finding C12:date-number-mix; #guard witnesses).",
     "C02": " The precedence theorem is now proved (C02Parse): for expression trees of any depth over or/and/not, comparison chains, + - * / %, unary minus "
            "and parentheses, EVERY token list spelled by the minimal-parentheses printer parses to the prescribed AST modulo positions "
@@ -191,20 +196,23 @@ ADDENDA = {
     "C08": " Full round trip (C08Full): for NULL, booleans, ints, strings and lists, sets and maps of them nested to any depth (canonical form), the "
            "scanner on the rendered text yields the expected tokens (data_tokens'), parseScript yields the literal AST (roundtrip_parse), evaluating it "
            "yields a value that reifies to the original (roundtrip_eval), and the composition renders the same text again (roundtrip_text); mkSet / mkMap "
-           "produce canonical form from any order (mkSet_isData', mkMap_isData').",
+           "produce canonical form from any order (mkSet_isData', mkMap_isData')."
+           " Decimals (C08Dec, 24 audited): IsDouble characterises the finite binary64 values exactly (nearestDouble_isDouble); decRepr_shape; nearestDouble_of_inside (round-to-nearest-even is correct on the whole rounding interval, subnormals and binade boundaries included); shortestDigits_found (the 17-digit search always succeeds); decRepr_roundtrip (float(repr(x)) = x), roundtrip_dec (both signs, through scanner and parser), decRepr_injective, roundtrip_eval_dec / roundtrip_text_list_dec (nested lists with decimals through print, scan, parse, evaluate, print), roundtrip_parse_dec (all container kinds through scanner and parser). Evaluator level (C08EvalAudit): string(v) and the result rendering equal render(reify v) (rrender_bridge, native_string_eq, string_set_perm).",
     "C09": " At the level of the evaluator model (C09Eval): NoEff (flag set, no effectful built-in value anywhere in frames or heap) is preserved by every "
            "evaluator function and by whole sessions (eval_preserves_noEff), no evaluator step writes the flag (secure_flag_constant), and secure-mode "
            "evaluation is independent of what the effectful built-ins would do (eval_indep_effectful: non-interference form of unreachability).",
     "C10": " Sessions keep their definitions (C10Sess): bindings_monotone (every binding of a frame survives evaluation, whatever the outcome), "
            "for_restores_value, session_bindings_persist, definition_survives_failed_call, prefix_effects_survive_failure, later_statements_do_not_run, "
            "failed_call_same_error_again, failed_remainder_never_ran, instances_independent; the `for` statement restores a variable hidden by its loop "
-           "variable (for_cleanup_on_error, hiddenVars_spec; defect D24 repaired).",
+           "variable (for_cleanup_on_error, hiddenVars_spec; defect D24 repaired)."
+           " Over source texts (C10EndToEnd): syntax_error_no_residue (a rejected text leaves the state exactly as it was), session_rejected_text_skipped, session_total, session_bindings_persist_src, definition_survives_failed_call_src, failed_call_same_error_again_src, modstack_empty_between_calls_src.",
     "C11": " `require` binds exactly the requested names (C11Bind): require_plain_binds_exactly, module_object_members, require_import_binds_exactly, "
            "require_unqualified_binds_exactly, module_scope_isolated, require_failure_binds_nothing, shared_instance, on top of the evaluator-wide "
            "invariant frames_extend.",
     "C13": " The driver's interpretation of 26 further built-ins (Driver/NativeSem.lean) is proved pure and therefore meets every hypothesis the flagship "
            "theorems put on the unmodelled built-ins (DriverNatives: driverNativeSem_pure, no_host_of_pure, nativeBalanced_of_pure, ...); it is compared "
-           "with the implementation on argument sweeps.",
+           "with the implementation on argument sweeps."
+           " Fuel is harmless (C13Fuel, 59 audited): eval_fuel_mono - simultaneously for all 30 evaluator functions and every loader, an outcome other than out-of-fuel is EXACTLY the same (value, error, final state) at every larger fuel; hence Terminates / EvalsTo with evalsTo_unique; while_true_diverges (out of fuel at every fuel) and one_plus_one_min_fuel show the predicate is not vacuous either way; c13_fuel_free: every program either diverges or has one fuel-independent outcome that is a value, a runtime error with an error value, a syntax failure or a model abstention - never a host failure. End to end (C13EndToEnd): interpret_no_host, runtime_error_catchable from source text.",
     "C14": " Literal spelling (C14Spell): decimal / hex / binary / underscored ints, single- vs double-quoted strings, != vs <> parse to the same literal / "
            "call (parseScript_int_spellings, quote_styles_scan, parse_ne_spelling), optional trailing semicolon and redundant parentheses for stable "
            "expression statements. The parser uses positions only by copying them (C14Parse: production_equivariant for all 49 productions, "
@@ -217,7 +225,8 @@ ADDENDA = {
     "C17": " date - date on exact millisecond stamps: (d + k) - d = k for dates with a time of day (diffDays_addDays), antisymmetry, truncation spec.",
     "C20": " Evaluator level (C20Eval): per construct the error carries the failing node's own position, errors propagate unchanged, a failing call adds "
            "exactly one trace entry with the call node's position, and every position in an outcome comes from an AST (error_pos_from_ast, "
-           "value_pos_from_ast). Parser level (C14Parse): positions_from_tokens.",
+           "value_pos_from_ast). Parser level (C14Parse): positions_from_tokens."
+           " End to end (C20EndToEnd): interpret_error_line - for every source text a reported runtime-error position, every stack-trace entry and every syntax-error position with the given file name is the position of a token of that text, whose line is 1 + the number of line breaks before the token's start offset (or one of the explicitly listed exceptions: positions stored in the start state, module ASTs, unmodelled natives, `{}` with two default messages); error_in_module_code (the module file and a token of the module's text); session_error_line.",
 }
 
 
